@@ -172,9 +172,12 @@ func run(t *testing.T, tape *simrt.Tape) *hx.Outcome {
 				do := func(o *op, f func()) {
 					t.AcqLog = t.AcqLog[:0]
 					o.at = s.Now()
+					inv := s.Seq()
 					f()
 					if len(t.AcqLog) == 0 {
-						s.Fail("harness", "operation %s took no lock", o.kind)
+						// an operation that takes no lock has no scheduling point inside: it is atomic in this
+						// schedule and takes effect where it was invoked
+						o.lin = inv
 						return
 					}
 					o.lin = t.AcqLog[0]
